@@ -1396,6 +1396,8 @@ func (ex *Exec) doTypeAssert(s *State, in *ssa.TypeAssert) Val {
 		// interface values never hold typed nil pointers (enforced at every
 		// MakeInterface in /repo: obligation ifacenonnil; A-TYPEDNIL for the rest)
 		s.assume(Implies(cond, Not(Eq(IRef(i), TNilR))))
+		// canonical form: a pointer payload lives in the ref component only
+		s.assume(Implies(cond, And(Eq(IBV(i), BVLit(0, 64)), Eq(IStr(i), Term{"str_empty", SStr}))))
 		ex.usedAssume["A-TYPEDNIL: interface values reaching /repo code from outside hold no typed nil pointers (enforced for values created in /repo)"] = true
 	}
 	if !in.CommaOk {
